@@ -62,6 +62,31 @@ func newLockMon() *lockMon {
 	return &lockMon{sections: map[string][]lockSection{}, openSec: map[string]int64{}, held: map[int64][]string{}, waiting: map[int64]string{}, owner: map[string]int64{}, edges: map[[2]string]map[string]bool{}, edgeG: map[[2]string]map[int64]bool{}}
 }
 
+// isHeld: some goroutine is inside the critical section of the named lock right now.
+func (l *lockMon) isHeld(name string) bool {
+	l.mu.Lock()
+	defer l.mu.Unlock()
+	for _, hs := range l.held {
+		for _, h := range hs {
+			if h == name {
+				return true
+			}
+		}
+	}
+	return false
+}
+
+// c05CurMon is the lock monitor of the case in progress (one case runs at a time in a child).
+var c05CurMon *lockMon
+
+// c05WaitHeld gives a long batch the chance to be inside its critical section before a rename / delete of the same
+// dataset is issued (bounded; it only shapes the workload).
+func c05WaitHeld(name string) {
+	for i := 0; i < 2000 && c05CurMon != nil && !c05CurMon.isHeld(name); i++ {
+		time.Sleep(500 * time.Microsecond)
+	}
+}
+
 func (l *lockMon) heldBy(g int64) []string {
 	l.mu.Lock()
 	defer l.mu.Unlock()
@@ -289,21 +314,12 @@ func genC05Case(r *rand.Rand, clients, readers, opsPer int, churn bool) c05Case 
 				ops = append(ops, c05Op{Client: cl, Kind: "mkds", DS: []string{fmt.Sprintf("sh%d", i)}, IDs: []string{fmt.Sprintf("%sw%d", gen.NsA, cl)}, Tag: tag, Sync: i})
 				continue
 			}
-			if cl == 0 && i%4 == 1 {
-				ops = append(ops, c05Op{Client: cl, Kind: "rename", DS: []string{"rnA", "rnB"}})
-				continue
-			}
-			if cl != 0 && i%4 == 1 {
-				// a new id into the dataset that is being renamed back and forth (whatever its name is right now)
-				ops = append(ops, c05Op{Client: cl, Kind: "rnwrite", DS: []string{"rnA", "rnB"}, IDs: []string{fmt.Sprintf("%srn-%d-%d", gen.NsA, cl, i)}, Tag: tag})
-				continue
-			}
-			if i%10 == 8 && cl == 0 {
+			if i%10 == 5 && cl == 0 {
 				// a dataset that is written (long batch), renamed and deleted by three clients at the next rendezvous
 				ops = append(ops, c05Op{Client: cl, Kind: "mkds", DS: []string{fmt.Sprintf("rd%d", i+1)}, IDs: []string{ids[0]}, Tag: tag})
 				continue
 			}
-			if i%10 == 9 && cl < 3 {
+			if i%10 == 6 && cl < 3 {
 				d := fmt.Sprintf("rd%d", i)
 				switch cl {
 				case 0:
@@ -326,6 +342,15 @@ func genC05Case(r *rand.Rand, clients, readers, opsPer int, churn bool) c05Case 
 				} else {
 					ops = append(ops, c05Op{Client: cl, Kind: "txn", DS: []string{"da", "db"}, IDs: []string{c05FlipID}, Tag: []string{"flipX", "flipY"}[r.Intn(2)]})
 				}
+				continue
+			}
+			if cl == 0 && i%4 == 1 {
+				ops = append(ops, c05Op{Client: cl, Kind: "rename", DS: []string{"rnA", "rnB"}})
+				continue
+			}
+			if cl != 0 && i%4 == 1 {
+				// a new id into the dataset that is being renamed back and forth (whatever its name is right now)
+				ops = append(ops, c05Op{Client: cl, Kind: "rnwrite", DS: []string{"rnA", "rnB"}, IDs: []string{fmt.Sprintf("%srn-%d-%d", gen.NsA, cl, i)}, Tag: tag})
 				continue
 			}
 			if churn && i%3 == 2 {
@@ -447,6 +472,8 @@ func runC05Case(ctx *Ctx, c c05Case) {
 	mon.jitter = rand.New(rand.NewSource(ctx.Seed ^ int64(len(c.Ops))))
 	vh.SetLockTracer(mon.trace)
 	defer vh.SetLockTracer(nil)
+	c05CurMon = mon
+	defer func() { c05CurMon = nil }()
 
 	type poller struct {
 		token uint64
@@ -494,7 +521,9 @@ func runC05Case(ctx *Ctx, c c05Case) {
 			for _, op := range c.Ops[cl] {
 				rec := &c05Rec{op: op}
 				recs[cl] = append(recs[cl], rec)
-				if op.Sync > 0 {
+				if op.Sync >= 1000 {
+					rendezvous.arrive(op.Sync, 3)
+				} else if op.Sync > 0 {
 					rendezvous.arrive(op.Sync, c.Clients)
 				}
 				rec.call = now()
@@ -635,6 +664,17 @@ loop:
 	}
 	if prop == "C05" || prop == "C07" {
 		c05DeletedStayDeleted(ctx, id, prop, core)
+		for _, rs := range recs {
+			for _, r := range rs {
+				if r.op.Kind == "rename1" || (r.op.Kind == "rmds" && r.op.Sync >= 1000) {
+					out := "ok"
+					if r.err != "" {
+						out = "refused:" + firstLine(r.err)
+					}
+					ctx.Out.Stat("rendezvous_"+r.op.Kind+"_"+out, 1)
+				}
+			}
+		}
 	}
 	if prop == "C05" || prop == "C02" {
 		c05NoAdjacentDuplicates(ctx, id, prop, core)
@@ -816,6 +856,7 @@ func c05Do(core *hub.Core, op c05Op, rec *c05Rec, visMu *sync.Mutex, vis *[]stri
 			rec.err = err.Error()
 		}
 	case "rename1":
+		c05WaitHeld("ds:" + op.DS[0])
 		if core.Dsm.GetDataset(op.DS[0]) == nil {
 			rec.err = "no such dataset"
 			return
@@ -843,6 +884,11 @@ func c05Do(core *hub.Core, op c05Op, rec *c05Rec, visMu *sync.Mutex, vis *[]stri
 		}
 		rec.err = "dataset is between two names"
 	case "rmds":
+		if op.Sync >= 1000 {
+			// the delete of the rendezvous comes a moment after the rename started to wait
+			c05WaitHeld("ds:" + op.DS[0])
+			time.Sleep(300 * time.Microsecond)
+		}
 		if ds := core.Dsm.GetDataset(op.DS[0]); ds != nil {
 			iid := ds.InternalID
 			if err := core.Dsm.DeleteDataset(op.DS[0]); err != nil {
